@@ -1,5 +1,5 @@
 (* C08 — Simplified syntax means exactly its documented core translation.
-   Only statements + `exact`; proofs are in Logic/SugarFacts.v, Logic/SugarMore.v (coincidence lemma, recursive
+   Only statements + `exact`; proofs are in Logic/SugarFacts.v, (wave 3: SugarUniq/Walk/Compose/Ghost/Addm/ComposeX.v), Logic/SugarMore.v (coincidence lemma, recursive
    push-in, `..` axis), Logic/SugarXPath.v (XPath child axis at the level of `ev`), Logic/SugarTotal.v (totality of
    the push-in), Logic/SugarClose.v (the closure loop of close_over_free_nonterminals).  Model: Logic/Sugar.v (elaboration of ISLaEmitter); `ev` is the abstract two-valued evaluation over
    arbitrary quantifier domains (possibly empty).
@@ -27,13 +27,28 @@
        as rewritten by AddMexprTransformer over the alternatives of expand_mexpr_trees, == "the pos-th <T> child of x"
        under a concrete tree semantics of one-level match expressions (guards: no empty-string symbol in the
        alternatives of x's type, the nodes ranged over are expanded by grammar alternatives).
-   STILL MISSING: `elab g s = Ok c` outside the K classes for the whole pipeline (proved: the push-in stage and the
-     closure loop without XPath never fail; walk, ensure_unique_bound_variables and the final free-variable check are
-     not covered); multi-segment XPaths and the push-in with the in-variable bound inside (push_in_formulas) for `..`
-     below conjunctions; the composition of all stages into the full statement. *)
+   END-TO-END (wave 3; Logic/SugarUniq.v, SugarWalk.v, SugarCompose.v, SugarGhost.v, SugarAddm.v, SugarComposeX.v):
+     C08_sugar_core_noxpath_partial — for the WHOLE pipeline `elab` (walk, ensure_unique_bound_variables, closure loop,
+       close_over_xpath_expressions, second uniqueness pass, final free-variable check) on the XPath-free fragment:
+       elab g s = Ok c -> ev c = ev (elab_doc_nox s), elab_doc_nox = plain documented translation (walk_doc) + closure
+       of the whole formula; boolean guard sugar_guard_nox s (evaluated by the harness on every case) + semantic
+       premise "no closure variable has an empty domain" (= not K_pushin_empty);
+     C08_sugar_core_xpath1_partial — the same with ONE XPath expression (any number of child steps) rooted at a
+       quantified variable; documented side = quantifier of the first variable replaced by the plain conjunction /
+       disjunction of its match-expression copies (C08_addm_sem, FULL: AddMexprTransformer == evaluation over the
+       concatenated match-expression domains);
+     C08_elab_total_noxpath_partial — inside the guard the pipeline returns a formula or raises the SyntaxError of the
+       final "Unbound variables" check (nothing else);
+     C08_uniq_nodup_sound_partial — ensure_unique_bound_variables is total and meaning-preserving when binder names
+       are pairwise distinct;  C08_walk_doc_equiv (FULL) — listener walk == plain documented translation.
+   STILL MISSING: formulas whose binder names repeat (xor/iff over quantified operands, XPath on a type with several
+     alternatives and a quantified body): needs an alpha-renaming theorem for ensure_unique_bound_variables; XPath
+     expressions rooted at a free nonterminal (close_groups), several XPath expressions, `..` in the end-to-end
+     statement and below conjunctions (push_in_formulas); discharge of the final free-variable check; an independent
+     (state-free) specification of which variable an occurrence of <T> denotes (walk_doc shares the listener state). *)
 From Coq Require Import List NArith Bool.
 Import ListNotations.
-From ISLA Require Import Str Outcome Tree Grammar Formula Sugar SugarFacts SugarMore SugarXPath SugarTotal SugarClose.
+From ISLA Require Import Str Outcome Tree Grammar Formula Sugar SugarFacts SugarMore SugarXPath SugarTotal SugarClose SugarUniq SugarWalk SugarCompose SugarGhost SugarAddm SugarComposeX.
 
 (* implies / iff / xor, as built by the parser from the smart constructors, have their truth-table meaning *)
 Theorem C08_derived_connectives :
@@ -313,3 +328,127 @@ Theorem C08_close_fnt_sound_nonvacuous :
      K_pushin_empty str (dom_k (fun _ => [121]%N)) (fun _ => []) rho0 v (InVar start_c) None = false).
 Proof. exact close_fnt_nonvacuous. Qed.
 Print Assumptions C08_close_fnt_sound_nonvacuous.
+
+(* ================= wave 3: end-to-end composition (Logic/SugarUniq.v, SugarWalk.v, SugarCompose.v) ================= *)
+
+(* ensure_unique_bound_variables (uniq, with its threaded `used_names` state): on a formula whose binder NAMES are
+   pairwise distinct and not in the used set (and whose and/or nodes have >= 2 operands) the pass returns with the
+   model's fuel, renames nothing, and the result (and/or rebuilt through the smart constructors) has the same
+   meaning in every environment; the returned name set only grows by binder names.
+   PARTIAL: formulas in which a binder name repeats (then the pass really renames: needs an alpha-renaming theorem
+   for the blind substitution `sub` and a premise that quantifier domains are invariant under renaming). *)
+Theorem C08_uniq_nodup_sound_partial :
+  forall (D : Type) aev pev (dom : D -> var -> option mexpr -> list (list (var * D))) idom tval,
+  (forall d v m k, mexpr_eqb m k = true -> dom d v m = dom d v k) ->
+  forall n U f, fsize f < n -> arity_ok f = true -> NoDup (names (binders f)) ->
+    (forall x, In x (names (binders f)) -> ~ In x U) ->
+    exists f' U', uniq n U f = Ok (f', U') /\
+      (forall rho, ev D aev pev dom idom tval rho f' = ev D aev pev dom idom tval rho f) /\
+      (forall x, In x U' -> In x U \/ In x (names (binders f))).
+Proof. exact uniq_nodup_sound. Qed.
+Print Assumptions C08_uniq_nodup_sound_partial.
+
+(* the listener walk (propositional layer + quantifiers) == the documented translation with PLAIN constructors
+   (walk_doc: `A xor B` = (A and not B) or (B and not A), `A implies B` = not A or B, `A iff B` = (A and B) or
+   (not A and not B) as in islaspec.rst; no shortcut, no De Morgan, no dualisation): same listener state, same meaning
+   in every environment.  FULL (all surface formulas, states, environments, domains). *)
+Theorem C08_walk_doc_equiv :
+  forall (D : Type) aev pev (dom : D -> var -> option mexpr -> list (list (var * D))) idom tval,
+  (forall d v m k, mexpr_eqb m k = true -> dom d v m = dom d v k) ->
+  forall s used d st st' f,
+    walk used d st s = Ok (st', f) ->
+    exists f', walk_doc used d st s = Ok (st', f') /\
+               forall rho, ev D aev pev dom idom tval rho f = ev D aev pev dom idom tval rho f'.
+Proof. exact walk_equiv. Qed.
+Print Assumptions C08_walk_doc_equiv.
+
+(* END-TO-END, XPath-free surface fragment (free nonterminals, unnamed quantifiers, omitted / nonterminal `in`,
+   user-written match expressions, numeric quantifiers, not/and/or/implies/iff/xor, all atom notations):
+     elab g s = Ok c  ->  ev c = ev (elab_doc_nox s)
+   elab_doc_nox = walk_doc + `forall v in start` per free nonterminal around the WHOLE formula; no renaming pass, no
+   push-in.  Guard sugar_guard_nox s (boolean, evaluated by the harness on every generated case): the listener
+   registered no XPath expression; before both passes of ensure_unique_bound_variables the binder names are pairwise
+   distinct; and/or nodes have >= 2 operands; the closure variables are pairwise distinct, not `start`, not bound
+   inside the formula, and no quantifier ranges over its own variable (conditions checked on the model's intermediate
+   formulas; they fail only through name clashes = K_fresh_clash, or when xor/iff duplicates a quantified operand).
+   Semantic premise = negation of the refuted class K_pushin_empty for every closure variable.
+   PARTIAL: XPath expressions (incl. `..`), formulas whose binder names repeat. *)
+Theorem C08_sugar_core_noxpath_partial :
+  forall (D : Type) aev pev (dom : D -> var -> option mexpr -> list (list (var * D))) idom tval,
+  (forall d v m k, mexpr_eqb m k = true -> dom d v m = dom d v k) ->
+  (forall d v m asg, In asg (dom d v m) -> forall x, existsb (fun p => var_eqb (fst p) x) asg = vmem x (qbound v m)) ->
+  forall g s c, sugar_guard_nox s = true -> elab g s = Ok c ->
+    exists c', elab_doc_nox s = Ok c' /\
+      forall rho,
+        (forall v, In v (sugar_closure_vars s) -> K_pushin_empty D dom tval rho v (InVar start_c) None = false) ->
+        ev D aev pev dom idom tval rho c = ev D aev pev dom idom tval rho c'.
+Proof. exact sugar_core_noxpath. Qed.
+Print Assumptions C08_sugar_core_noxpath_partial.
+
+(* TOTALITY of the whole pipeline inside the same guard: elab returns a formula, or raises the SyntaxError of the final
+   "Unbound variables" check — no fuel exhaustion, no AssertionError / StopIteration / NotImplemented in walk, both
+   ensure_unique_bound_variables passes, the closure loop and close_over_xpath_expressions.
+   PARTIAL: the final free-variable check itself is not discharged (needs `fv` monotonicity of every stage). *)
+Theorem C08_elab_total_noxpath_partial :
+  forall g s, sugar_guard_nox s = true -> (exists c, elab g s = Ok c) \/ elab g s = Raise SyntaxErr.
+Proof. exact elab_total_noxpath. Qed.
+Print Assumptions C08_elab_total_noxpath_partial.
+
+(* non-vacuity: `<a> = "x" and <b> = "y"` is inside the guard, elab gives ISLa's pushed-in AST (sugar_wit), elab_doc_nox
+   the closure of the whole conjunction (doc_wit), and on a domain with a <b> node the semantic premise holds
+   (on the input `z` of C08_pushin_refuted it does not, and the two formulas differ) *)
+Theorem C08_sugar_core_noxpath_nonvacuous :
+  sugar_guard_nox S_wit = true /\ elab G0 S_wit = Ok sugar_wit /\ elab_doc_nox S_wit = Ok doc_wit /\
+  sugar_closure_vars S_wit = [vb; va] /\
+  (forall v, In v (sugar_closure_vars S_wit) ->
+     K_pushin_empty str (dom_k (fun _ => [121]%N)) (fun _ => []) rho0 v (InVar start_c) None = false).
+Proof. exact sugar_core_noxpath_nonvacuous. Qed.
+Print Assumptions C08_sugar_core_noxpath_nonvacuous.
+
+(* AddMexprTransformer (addm, quantifiers without match expression; reduce(&) / reduce(|) over the alternatives with
+   all smart-constructor shortcuts) == evaluating the ORIGINAL formula over the domain function domX in which the
+   domain of the first variable is the concatenation of its match-expression domains; the documented plain form
+   addm_doc (FAnd / FOr of the copies) means the same.  FULL (all formulas; ms <> [] is what the code guarantees:
+   an empty expansion raises SyntaxError before). *)
+Theorem C08_addm_sem :
+  forall (D : Type) aev pev (dom : D -> var -> option mexpr -> list (list (var * D))) idom tval,
+  (forall d v m k, mexpr_eqb m k = true -> dom d v m = dom d v k) ->
+  forall first ms, ms <> [] ->
+  forall F F', addm first ms F = Ok F' ->
+  forall rho, ev D aev pev dom idom tval rho F' = ev D aev pev (domX D dom first ms) idom tval rho F /\
+              ev D aev pev dom idom tval rho (addm_doc first ms F) = ev D aev pev (domX D dom first ms) idom tval rho F.
+Proof. exact addm_both. Qed.
+Print Assumptions C08_addm_sem.
+
+(* END-TO-END with ONE XPath expression rooted at a quantified variable (`x.<a>[2]`, `x.<a>.<b>` - any number of child
+   steps -, `<X>.<a>` inside `forall <X>:`), together with free nonterminals and all propositional sugar:
+     elab g s = Ok c  ->  ev c = ev (elab_doc_xp1 g s)
+   elab_doc_xp1 = walk_doc, closure of the WHOLE formula, then the quantifier of the first variable replaced by the
+   plain conjunction / disjunction of its copies carrying the match expressions of expand_mexpr_trees (tree-level
+   meaning of those: C08_xpath_child_forall_partial / _exists_partial).
+   Guard sugar_guard_xp1 g s: the conditions of C08_sugar_core_noxpath_partial on the intermediate formulas, plus: the
+   XPath root is a variable name (not a free nonterminal: group closure in close_groups NOT covered), one segment
+   group (no `..`), the result variable and the first variable are not closure variables, every generated match
+   expression binds exactly the result variable, and the binder names are still pairwise distinct AFTER the match
+   expressions were attached (i.e. one alternative, or a quantifier-free body: otherwise the second
+   ensure_unique_bound_variables pass renames, not covered).  Same semantic premise (K_pushin_empty excluded). *)
+Theorem C08_sugar_core_xpath1_partial :
+  forall (D : Type) aev pev (dom : D -> var -> option mexpr -> list (list (var * D))) idom tval,
+  (forall d v m k, mexpr_eqb m k = true -> dom d v m = dom d v k) ->
+  (forall d v m asg, In asg (dom d v m) -> forall x, existsb (fun p => var_eqb (fst p) x) asg = vmem x (qbound v m)) ->
+  forall g s c, sugar_guard_xp1 g s = true -> elab g s = Ok c ->
+    exists c', elab_doc_xp1 g s = Ok c' /\
+      forall rho,
+        (forall v, In v (sugar_closure_vars s) -> K_pushin_empty D dom tval rho v (InVar start_c) None = false) ->
+        ev D aev pev dom idom tval rho c = ev D aev pev dom idom tval rho c'.
+Proof. exact sugar_core_xpath1. Qed.
+Print Assumptions C08_sugar_core_xpath1_partial.
+
+(* non-vacuity: forall <start> x: (x.<s> = "x" and <b> = "y") *)
+Theorem C08_sugar_core_xpath1_nonvacuous :
+  sugar_guard_xp1 G0 S_xp = true /\
+  (exists c c', elab G0 S_xp = Ok c /\ elab_doc_xp1 G0 S_xp = Ok c' /\ cf_eqb c c' = false) /\
+  (forall v, In v (sugar_closure_vars S_xp) ->
+     K_pushin_empty str (dom_k (fun _ => [121]%N)) (fun _ => []) rho0 v (InVar start_c) None = false).
+Proof. exact sugar_core_xpath1_nonvacuous. Qed.
+Print Assumptions C08_sugar_core_xpath1_nonvacuous.
